@@ -31,18 +31,27 @@ def _dump(node, fieldidx):
     return {"k": "other:" + type(node).__name__, "i": 0, "args": []}
 
 
-def _parse(names, text):
+def _parse(names, text, reuse=False):
+    """reuse: the rule is loaded with ANOTHER condition (its first detection alone), that condition object is read once,
+    then its text is replaced by the case's text - as a pipeline item that rewrites conditions does - and read again
+    through the attribute the backends use."""
     from sigma.rule import SigmaRule
     from sigma.exceptions import SigmaError
 
     det = {n: {f"F{i + 1}": "v"} for i, n in enumerate(names)}
-    det["condition"] = text
+    det["condition"] = names[0] if reuse else text
     fieldidx = {f"F{i + 1}": i + 1 for i in range(len(names))}
     doc = {"title": "t", "logsource": {"category": "test"}, "detection": det}
     ret = {"ok": False, "tree": {"k": "none", "i": 0, "args": []}, "exc": "", "sigma": False}
     try:
         rule = SigmaRule.from_dict(doc)
-        tree = rule.detection.parsed_condition[0].parse()
+        if reuse:
+            cond = rule.detection.parsed_condition[0]
+            cond.parsed  # noqa: B018  (first access)
+            cond.condition = text
+            tree = cond.parsed
+        else:
+            tree = rule.detection.parsed_condition[0].parse()
         ret["ok"] = True
         ret["tree"] = _dump(tree, fieldidx)
     except Exception as e:
@@ -62,7 +71,9 @@ def drive_case(case):
     text = uncps(case["text"])
     first = {"id": case["id"], "names": case["names"], "text": case["text"], "ret": _parse(names, text)}
     rev = list(reversed(case["names"]))
-    second = {"id": case["id"] + SECOND, "names": rev, "text": case["text"], "ret": _parse(list(reversed(names)), text)}
+    # (every other case reads the second rule through a condition object that was read before its text was set)
+    second = {"id": case["id"] + SECOND, "names": rev, "text": case["text"],
+              "ret": _parse(list(reversed(names)), text, reuse=(case["id"] * 2654435761 >> 8) % 2 == 1)}
     return {"id": case["id"], "both": [first, second]}
 
 
